@@ -176,10 +176,16 @@ Apply(c, op, a, params) ==
     [] op = "outersin" -> OuterSeriesScaled(c, a[1], c.d, Odds(c.d))
     [] op = "outercos" -> OuterSeriesScaled(c, a[1], c.d, Evens(c.d))
     [] op = "id" -> a[1]
+    [] op \in {"rt_hodge", "rt_unhodge"} -> a[1]           \* unhodge(hodge x) = x = hodge(unhodge x)
+    [] op = "wedge_hodge" -> OP(c, a[1], Hodge(c, a[1]))   \* = coefficient^2 * pss for a basis blade
+
+NullCount(c) == Cardinality({j \in 1 .. c.d : c.sig[j] = 0})
+IsScaledBlade(x) == Cardinality(Supp(x)) = 1
 
 TotalOps == {"gp", "op", "ip", "lc", "rc", "sp", "cp", "acp", "rp", "sw", "proj", "add", "sub",
              "neg", "reverse", "involute", "conjugate", "grade", "hodge", "unhodge",
-             "unpolarity", "normsq", "pow", "outerexp", "outersin", "outercos", "id"}
+             "unpolarity", "normsq", "pow", "outerexp", "outersin", "outercos", "id",
+             "rt_hodge", "rt_unhodge", "wedge_hodge"}
 
 \* stored form is well formed: keys are blades of the algebra, none repeated
 StoredOK(c, keys, coefs) ==
@@ -193,29 +199,72 @@ StoredOK(c, keys, coefs) ==
 (*   a       : operand denotations         raised : "" or exception name    *)
 (*   rk, rv  : keys and coefficients of the returned multivector            *)
 (***************************************************************************)
-OpVerdict(c, op, a, params, raised, rk, rv) ==
-  IF op \in TotalOps THEN
+\* the blade of all null generators: if every stored blade of x contains a null generator then
+\* x * NullBlade = 0, which proves that x has no inverse
+NullBladeMV(c) == MVBlade(c.d, BinOf({j \in 0 .. c.d - 1 : c.sig[j + 1] = 0}))
+\* w = supplied witness, or (when none is supplied) the null blade
+NoInverseProved(c, x, w) ==
+  \/ IsZeroMV(x)                        \* 0 has no inverse
+  \/ IsZeroDivisorWitness(c, x, w)
+  \/ (NullCount(c) > 0 /\ IsZeroMV(GP(c, x, NullBladeMV(c))))
+
+OpVerdict(c, op, a, params, raised, rk, rv, w) ==
+  IF op \in TotalOps /\ ~(op = "pow" /\ params[1] < 0) THEN
        IF raised # "" THEN "raised_on_total_operator"
        ELSE IF ~StoredOK(c, rk, rv) THEN "result_not_well_formed"
-       ELSE IF SameElement(Scale(ResultScale(c, op), FromKV(c.d, rk, rv)), Apply(c, op, a, params))
-            THEN "ok" ELSE "value_differs_from_definition"
+       ELSE IF ~SameElement(Scale(ResultScale(c, op), FromKV(c.d, rk, rv)), Apply(c, op, a, params))
+            THEN "value_differs_from_definition"
+       \* E ^ hodge(E) = pss for every basis blade E (with coefficient v: v*v*pss)
+       ELSE IF op = "wedge_hodge" /\ IsScaledBlade(a[1]) /\
+               ~SameElement(FromKV(c.d, rk, rv),
+                            LET E == CHOOSE B \in Supp(a[1]) : TRUE IN SMul(CMul(a[1][E], a[1][E]), MVPss(c)))
+            THEN "blade_wedge_its_hodge_dual_is_not_the_pseudoscalar"
+       ELSE "ok"
   ELSE IF op = "polarity" THEN
        IF PssSquare(c) = 0 THEN (IF raised = "ZeroDivisionError" THEN "ok" ELSE "degenerate_polarity_must_raise_ZeroDivisionError")
        ELSE IF raised # "" THEN "polarity_raised_on_nondegenerate_metric"
        ELSE IF ~StoredOK(c, rk, rv) THEN "result_not_well_formed"
        ELSE IF SameElement(FromKV(c.d, rk, rv), Polarity(c, a[1])) THEN "ok" ELSE "value_differs_from_definition"
+  ELSE IF op \in {"rt_polarity", "rt_unpolarity"} THEN
+       IF PssSquare(c) = 0 THEN (IF raised = "ZeroDivisionError" THEN "ok" ELSE "degenerate_polarity_must_raise_ZeroDivisionError")
+       ELSE IF raised # "" THEN "polarity_raised_on_nondegenerate_metric"
+       ELSE IF ~StoredOK(c, rk, rv) THEN "result_not_well_formed"
+       ELSE IF SameElement(FromKV(c.d, rk, rv), a[1]) THEN "ok" ELSE "polarity_round_trip_is_not_identity"
+  ELSE IF op \in {"dual", "undual", "rt_dual", "rt_undual"} THEN
+       \* polarity for non-degenerate metrics, Hodge duality when exactly one generator is null
+       IF NullCount(c) > 1 THEN (IF raised # "" THEN "ok" ELSE "auto_dual_must_refuse_when_more_than_one_null_generator")
+       ELSE IF raised # "" THEN "dual_raised"
+       ELSE IF ~StoredOK(c, rk, rv) THEN "result_not_well_formed"
+       ELSE IF SameElement(FromKV(c.d, rk, rv),
+                  IF op \in {"rt_dual", "rt_undual"} THEN a[1]
+                  ELSE IF NullCount(c) = 0 THEN (IF op = "dual" THEN Polarity(c, a[1]) ELSE Unpolarity(c, a[1]))
+                  ELSE (IF op = "dual" THEN Hodge(c, a[1]) ELSE Unhodge(c, a[1])))
+            THEN "ok" ELSE "dual_kind_or_value_differs"
   ELSE IF op = "inv" THEN
-       IF raised # "" THEN "raised"      \* decided by the zero-divisor certificate event instead
+       \* an error is allowed only for operands that have no inverse (certificate: zero divisor)
+       IF raised = "ZeroDivisionError" THEN (IF NoInverseProved(c, a[1], w) THEN "ok" ELSE "ZeroDivisionError_without_proof_that_no_inverse_exists")
+       ELSE IF raised # "" THEN "inverse_raised_unexpected_exception"
        ELSE IF ~StoredOK(c, rk, rv) THEN "result_not_well_formed"
        ELSE IF IsInverse(c, a[1], FromKV(c.d, rk, rv)) THEN "ok" ELSE "not_a_two_sided_inverse"
-  ELSE IF op = "div" THEN
-       \* a[1] / a[2] = a[1] * inverse(a[2]):  (r * a2 = a1 is implied, and with a2 invertible equivalent)
-       IF raised # "" THEN "raised"
+  ELSE IF op = "pow" /\ params[1] < 0 THEN
+       \* x ** -n is the inverse of the n-fold product
+       IF raised = "ZeroDivisionError" THEN (IF NoInverseProved(c, a[1], w) THEN "ok" ELSE "ZeroDivisionError_without_proof_that_no_inverse_exists")
+       ELSE IF raised # "" THEN "power_raised_unexpected_exception"
        ELSE IF ~StoredOK(c, rk, rv) THEN "result_not_well_formed"
+       ELSE IF IsInverse(c, GPow(c, a[1], 0 - params[1]), FromKV(c.d, rk, rv)) THEN "ok" ELSE "negative_power_is_not_inverse_of_power"
+  ELSE IF op \in {"div", "mulinv", "rdiv"} THEN
+       \* a[1] / a[2] = a[1] * inverse(a[2]):  (r * a2 = a1 is implied, and with a2 invertible equivalent)
+       IF raised = "ZeroDivisionError" THEN (IF NoInverseProved(c, a[2], w) THEN "ok" ELSE "ZeroDivisionError_without_proof_that_no_inverse_exists")
+       ELSE IF raised # "" THEN "division_raised_unexpected_exception"
+       ELSE IF ~StoredOK(c, rk, rv) THEN "result_not_well_formed"
+       \* q = a1 * inverse(a2)  <=>  q * a2 = a1 and a2 invertible; invertibility is witnessed by
+       \* the recorded quotient of 1 (params) or follows from q*a2 = a1 for generic a1
        ELSE IF SameElement(GP(c, FromKV(c.d, rk, rv), a[2]), a[1]) THEN "ok" ELSE "quotient_times_divisor_differs"
   ELSE IF op = "outertan" THEN
        \* outertan = outersin * inverse(outercos)  <=>  outertan * outercos = outersin
-       IF raised # "" THEN "raised"
+       IF raised = "ZeroDivisionError" THEN
+            (IF NoInverseProved(c, OuterSeriesScaled(c, a[1], c.d, Evens(c.d)), w) THEN "ok" ELSE "ZeroDivisionError_without_proof_that_no_inverse_exists")
+       ELSE IF raised # "" THEN "outertan_raised_unexpected_exception"
        ELSE IF ~StoredOK(c, rk, rv) THEN "result_not_well_formed"
        ELSE IF SameElement(GP(c, FromKV(c.d, rk, rv), OuterSeriesScaled(c, a[1], c.d, Evens(c.d))),
                            OuterSeriesScaled(c, a[1], c.d, Odds(c.d)))
